@@ -495,6 +495,20 @@ func (c *Conn) NWrites() int {
 	return len(c.writes)
 }
 
+// CountWrites is the number of recorded writes (failed or not) whose bytes equal b.
+func (c *Conn) CountWrites(b []byte) int {
+	c.mu.Lock()
+	defer c.mu.Unlock()
+	n := 0
+	for i := range c.writes {
+		if bytes.Equal(c.writes[i].Bytes, b) {
+			n++
+		}
+	}
+
+	return n
+}
+
 // Deliver hands a datagram to the reader; false if the connection is closed (reader gone).
 func (c *Conn) Deliver(d []byte) bool {
 	select {
